@@ -299,3 +299,20 @@ pub fn run_scenario(sc: &Scenario) -> Outcome {
         }
     })
 }
+
+/// Human-readable trace of a run (enabled by AVMON_DEBUG in the property modules).
+pub fn debug_dump(sc: &Scenario, oc: &Outcome) {
+    for (i, a) in sc.acts.iter().chain(sc.settle.iter()).enumerate() {
+        let Some(sn) = oc.snaps.get(i) else { break };
+        let what = match a {
+            Act::Push(d) => format!("push {} bytes: {}", d.len(), crate::util::esc_short(d, 60)),
+            other => format!("{other:?}"),
+        };
+        eprintln!("{}act {i:2} {what}\n        -> out={} reqs={} read={} done={} closed={} polls={} t={}ms", if i == sc.acts.len() { "---- settle ----\n" } else { "" }, sn.out_len, sn.n_reqs, sn.bytes_read, sn.done, sn.closed, sn.polls, sn.t_ms);
+    }
+    eprintln!("result={:?} done={} stalled={} forced_progress={} livelock={} pending_in={} polls={} wakes={}", oc.result, oc.done, oc.stalled, oc.stall_forced_poll_progress, oc.livelock, oc.pending_in, oc.polls, oc.wakes);
+    for r in &oc.reqs {
+        eprintln!("req {} {} {} body={} end={:?} responded_seq={} resp_end={:?} yielded={} out_at_invoke={}", r.idx, r.method, r.target, r.body.len(), r.body_end, r.responded_seq, r.resp_end, r.resp_yielded.len(), r.out_len_at_invoke);
+    }
+    eprintln!("wire ({} bytes): {}", oc.out.len(), crate::util::esc_short(&oc.out, 1200));
+}
